@@ -1,5 +1,5 @@
 From V Require Import Common.Base C20.CtxLTS C20.CtxSpec C20.CtxProofs.
-From V Require Import C20.CtxMonA C20.CtxMonB.
+From V Require Import C20.CtxMonA C20.CtxMonB C20.CtxWatchRet.
 Local Close Scope Z_scope.
 Local Open Scope nat_scope.
 
@@ -84,7 +84,7 @@ Lemma mon_ret_unfold : forall m c o v p,
        then Some (mkMon (m_ncalls m) (m_next m) (m_run m) (m_loaded m) (m_load m) (m_end m) (m_ret m) pend
                         (m_dispCalled m) (m_dispRet m) (m_watchCalled m) true (m_cancelCalled m) (m_edits m))
        else None
-   | OpWatch, RvErr => if m_dispCalled m || m_watchOk m then Some (upd_pend m pend) else None
+   | OpWatch, RvErr => if m_dispCalled m || m_watchOk m || watch_pending pend then Some (upd_pend m pend) else None
    | _, _ => None
    end).
 Proof.
@@ -182,39 +182,67 @@ Proof.
   - eapply minv_ret; eauto; simpl; auto.
 Qed.
 
-(* Watch fails *)
+(* Watch fails on a disposed context (the whole call is one step) *)
 Lemma case_ret_watch_err : forall s m t,
   SInv s -> MInv s m -> t < nt s -> t_kind (thr s t) = KClient OpWatch -> t_pc (thr s t) = PWaStart ->
-  (disposed s = true \/ watcher s = true) ->
+  disposed s = true ->
   exists m', mon_step m (LRet (t_cid (thr s t)) OpWatch RvErr) = Some m' /\ MInv (set_pc s t (PRet RvErr)) m'.
 Proof.
-  intros s m t I M Ht K Hpc Hc.
+  intros s m t I M Ht K Hpc Hd.
   destruct (pend_of s m t OpWatch M Ht K) as [p [F [O Q]]]; [rewrite Hpc; reflexivity|].
   eapply sound_ret_plain; eauto. rewrite Hpc; reflexivity.
   rewrite (mon_ret_unfold m _ _ _ p F O). simpl.
-  destruct Hc as [Hd|Hw].
-  - rewrite (r_disposed _ _ M Hd). reflexivity.
-  - rewrite <- (r_watch _ _ M), Hw. rewrite orb_true_r. reflexivity.
+  rewrite (r_disposed _ _ M Hd). reflexivity.
 Qed.
 
-(* Watch succeeds *)
-Lemma case_ret_watch_ok : forall s m t,
-  SInv s -> MInv s m -> t < nt s -> t_kind (thr s t) = KClient OpWatch -> t_pc (thr s t) = PWaStart ->
-  disposed s = false -> watcher s = false ->
-  exists m', mon_step m (LRet (t_cid (thr s t)) OpWatch RvUnit) = Some m' /\
-    MInv (set_pc (mkState false (active s) (recent s) true (nt s) (stopFlag s) (wexited s)
-                        (edits s) (nb s) (blds s) (S (S (nt s)))
-                        (upd (upd (thr s) (nt s) (mkThread KWatcher 0 PWlCheck)) (S (nt s)) (mkThread KWatchFirst 0 PWfStart))
-                        (ncalls s)) t (PRet RvUnit)) m'.
+Lemma watch_pending_other : forall c c' l p, find_pend c' l = Some p -> p_op p = OpWatch -> c' <> c ->
+  watch_pending (remove_pend c l) = true.
 Proof.
-  intros s m t I M Ht K Hpc Hd Hw.
+  intros c c' l p F O N. unfold watch_pending.
+  assert (F' : find_pend c' (remove_pend c l) = Some p) by (rewrite find_remove_other; auto).
+  clear F. induction (remove_pend c l) as [|q r IH]; simpl in *; [discriminate|].
+  destruct (Nat.eqb_spec (p_cid q) c').
+  - inversion F'; subst. rewrite O. reflexivity.
+  - rewrite (IH F'). apply orb_true_r.
+Qed.
+
+(* Watch found the flag already set and returns its error later: by then the
+   call that set the flag has succeeded or is still pending *)
+Lemma case_ret_watch_err2 : forall s m t,
+  SInv s -> MInv s m -> WCl s m -> t < nt s -> t_kind (thr s t) = KClient OpWatch -> t_pc (thr s t) = PWaRet RvErr ->
+  exists m', mon_step m (LRet (t_cid (thr s t)) OpWatch RvErr) = Some m' /\ MInv (set_pc s t (PRet RvErr)) m'.
+Proof.
+  intros s m t I M W Ht K Hpc.
   destruct (pend_of s m t OpWatch M Ht K) as [p [F [O Q]]]; [rewrite Hpc; reflexivity|].
+  eapply sound_ret_plain; eauto. rewrite Hpc; reflexivity.
+  rewrite (mon_ret_unfold m _ _ _ p F O). simpl.
+  pose proof (c_err _ _ W t Ht Hpc) as Hw.
+  destruct (c_set _ _ W Hw) as [Ok|[t' [Ht' Hp']]].
+  - rewrite Ok, orb_true_r. reflexivity.
+  - assert (K' : t_kind (thr s t') = KClient OpWatch).
+    { pose proof (i_kind _ I t' Ht') as Kk. rewrite Hp' in Kk.
+      destruct (t_kind (thr s t')) as [[]| |]; simpl in Kk; try discriminate; auto. }
+    destruct (pend_of s m t' OpWatch M Ht' K') as [p' [F' [O' _]]]; [rewrite Hp'; reflexivity|].
+    assert (N : t_cid (thr s t') <> t_cid (thr s t)).
+    { intros C. assert (t' = t) by (apply (r_ciduniq _ _ M t' t Ht' Ht); auto; [rewrite K'|rewrite K]; reflexivity).
+      subst t'. rewrite Hpc in Hp'. discriminate. }
+    rewrite (watch_pending_other _ _ _ _ F' O' N). rewrite !orb_true_r. reflexivity.
+Qed.
+
+(* Watch returns its success *)
+Lemma case_ret_watch_ok : forall s m t,
+  SInv s -> MInv s m -> WCl s m -> t < nt s -> t_kind (thr s t) = KClient OpWatch -> t_pc (thr s t) = PWaRet RvUnit ->
+  exists m', mon_step m (LRet (t_cid (thr s t)) OpWatch RvUnit) = Some m' /\ MInv (set_pc s t (PRet RvUnit)) m'.
+Proof.
+  intros s m t I M W Ht K Hpc.
+  destruct (pend_of s m t OpWatch M Ht K) as [p [F [O Q]]]; [rewrite Hpc; reflexivity|].
+  destruct (c_unit _ _ W t Ht Hpc) as [Hw Ok].
   eexists. split.
   - rewrite (mon_ret_unfold m _ _ _ p F O). simpl.
     destruct (p_dispRet p) eqn:D.
-    { destruct (q_disp _ _ _ _ Q D) as [E _]. congruence. }
-    rewrite <- (r_watch _ _ M), Hw. simpl. reflexivity.
-  - apply minv_watch; auto.
+    { destruct (q_disp _ _ _ _ Q D) as [_ [_ E]]. rewrite Hpc, O in E. discriminate. }
+    rewrite Ok. simpl. reflexivity.
+  - eapply minv_ret; eauto; simpl; auto. rewrite Hpc; reflexivity.
 Qed.
 
 Lemma owner_facts : forall s t b, SInv s -> t < nt s -> phase_of (t_pc (thr s t)) = Some b ->
@@ -243,7 +271,7 @@ Proof.
     - pose proof (rb_phase_kind _ _ _ (i_kind _ I t Ht) P C) as K.
       destruct (pend_of s m t OpRebuild M Ht K) as [p [F [O _]]]; [rewrite Hpc; reflexivity|].
       rewrite (find_pend_rebuild _ _ _ F O). reflexivity.
-    - pose proof (r_internal _ _ M t Ht C) as W. rewrite (r_watch _ _ M) in W.
+    - pose proof (r_internal _ _ M t Ht C) as W.
       rewrite (r_watchc _ _ M W). apply orb_true_r. }
   eexists. split.
   - simpl. rewrite Hn, Nat.eqb_refl, Hr, Hd, H8. simpl. reflexivity.
@@ -387,10 +415,10 @@ Ltac kind_of I t Ht Hpc :=
   let K := fresh "Kk" in pose proof (i_kind _ I t Ht) as K; rewrite Hpc in K.
 
 
-Theorem mon_step_sound : forall s m a s' l, SInv s -> MInv s m -> exec s a = Some (s', l) ->
+Theorem mon_step_sound : forall s m a s' l, SInv s -> MInv s m -> WCl s m -> exec s a = Some (s', l) ->
   exists m', mon_step m l = Some m' /\ MInv s' m'.
 Proof.
-  intros s m a s' l I M H.
+  intros s m a s' l I M W H.
   step_cases H.
   1: { (* call *)
     exists (call_mon m o). split; [|apply minv_call; auto].
@@ -418,7 +446,7 @@ Proof.
                lazymatch p with
                | PCaStart => idtac | PCaSet _ => idtac | PCaWait _ => idtac
                | PDiStart => idtac | PDiStop _ => idtac | PDiStopWait _ => idtac | PDiWait _ => idtac
-               | PWaStart => idtac
+               | PWaStart => idtac | PWaRet _ => idtac
                end;
                let Kk := fresh "Kk" in
                pose proof (i_kind _ I t0 Hl) as Kk; rewrite Hp in Kk;
@@ -431,6 +459,7 @@ Proof.
               | PRbOnStart _ => fail | PRbPoll _ => fail | PRbLoad _ => fail | PRbEnd _ _ => fail
               | PRbPublish _ => fail | PRbDone _ => fail | _ => idtac end end;
             match goal with Hp0 : t_pc _ = PRbStart, Ha0 : active _ = None |- _ => fail 1 | _ => idtac end;
+            match goal with Hp0 : t_pc _ = PWaStart, Hw0 : watcher _ = false |- _ => fail 1 | _ => idtac end;
             match goal with Hl : ?t0 < nt ?s0, M0 : MInv ?s0 ?m0 |- _ => exists m0; split; [reflexivity|]; eapply (minv_tau s0 _ m0 t0 I M0 Hl) end; simpl; auto;
             try (upd_simpl; rewrite ?Nat.eqb_refl; simpl; rewrite ?Hpc; auto; fail);
             try (upd_simpl; intros; eqb_cases; simpl; auto; congruence)).
@@ -458,7 +487,10 @@ Proof.
                   match goal with Hk : t_kind _ = _ |- _ => rewrite Hk; reflexivity end].
   all: try solve [eapply case_ret_cancel; eauto; try (rewrite Hpc; reflexivity); eauto].
   all: try solve [eapply case_ret_watch_err; eauto].
-  all: try solve [eapply case_ret_watch_ok; eauto].
+  all: try solve [match goal with Hp0 : t_pc (thr ?s0 ?t0) = PWaRet ?v, Hl : ?t0 < nt ?s0 |- _ =>
+                    destruct (c_val _ _ W t0 v Hl Hp0); subst v end;
+                  [eapply case_ret_watch_ok; eauto | eapply case_ret_watch_err2; eauto]].
+  all: try solve [exists m; split; [reflexivity|]; apply minv_watch; auto].
   all: try solve [eapply case_ret_dispose; eauto; try (rewrite Hpc; reflexivity);
                   match goal with
                   | Hp : t_pc (thr ?s0 ?t0) = _, Hl : ?t0 < nt ?s0 |- _ =>
@@ -504,10 +536,12 @@ Proof.
       all: try (intros H; destruct (Q4 H) as [D _]; congruence).
       all: try (intros ob Hob; inversion Hob; split; auto; intros b' Hb'; discriminate).
       all: try (intros Ho; exfalso; congruence).
-  - (* Watch succeeds *)
-    unfold upd at 1 2. unfold upd at 1 2.
-    destruct (Nat.eqb_spec t (S (nt s))); [lia|]. destruct (Nat.eqb_spec t (nt s)); [lia|].
-    rewrite Kt. eapply case_ret_watch_ok; eauto.
+  - (* Watch finds the flag already set: it will return the error later *)
+    intros o0 p0 K0 _ F0 O0 Q0.
+    destruct Q0 as [Q1 Q2 Q3 Q4 Q5 Q6 Q7 Q8 Q9 Q10].
+    constructor; auto; simpl; upd_simpl; rewrite ?Nat.eqb_refl; simpl; try (intros; discriminate).
+    all: try (intros H; destruct (Q4 H) as [D _]; congruence).
+    all: try (intros Ho; exfalso; congruence).
 Qed.
 
 (* ---- every run of the LTS is accepted by the monitor ---- *)
@@ -520,15 +554,16 @@ Proof.
 Qed.
 
 Lemma run_monitored : forall tr s, run init tr s ->
-  SInv s /\ exists m, mon_run mon0 tr = Some m /\ MInv s m.
+  SInv s /\ exists m, mon_run mon0 tr = Some m /\ MInv s m /\ WCl s m.
 Proof.
   intros tr s R.
   remember init as s0 eqn:E. induction R as [s0 | s0 tr s1 a s2 l R IH Ex]; subst.
-  - split; [apply sinv_init|]. exists mon0. split; [reflexivity|apply minv_init].
-  - destruct (IH eq_refl) as [I [m [Hm M]]].
+  - split; [apply sinv_init|]. exists mon0. split; [reflexivity|]. split; [apply minv_init|apply wcl0].
+  - destruct (IH eq_refl) as [I [m [Hm [M W]]]].
     split; [eapply sinv_step; eauto|].
-    destruct (mon_step_sound _ _ _ _ _ I M Ex) as [m' [St M']].
-    exists m'. split; auto. rewrite mon_run_app, Hm. exact St.
+    destruct (mon_step_sound _ _ _ _ _ I M W Ex) as [m' [St M']].
+    exists m'. split; [rewrite mon_run_app, Hm; exact St|]. split; auto.
+    eapply wcl_step; eauto. apply (r_watch _ _ M).
 Qed.
 
 Theorem history_sound : forall tr s, run init tr s -> history_ok tr = true.
@@ -545,8 +580,8 @@ Lemma dispose_return_state : forall tr s a s' c v,
   (forall t b, t < nt s' -> phase_of (t_pc (thr s' t)) = Some b -> False).
 Proof.
   intros tr s a s' c v R Ex.
-  destruct (run_monitored tr s R) as [I [m [Hm M]]].
-  destruct (mon_step_sound _ _ _ _ _ I M Ex) as [m' [St M']].
+  destruct (run_monitored tr s R) as [I [m [Hm [M W]]]].
+  destruct (mon_step_sound _ _ _ _ _ I M W Ex) as [m' [St M']].
   assert (D : m_dispRet m' = true).
   { simpl in St. destruct (find_pend c (m_pend m)); [|discriminate].
     destruct (negb (op_eqb (p_op p) OpDispose)); [discriminate|].
